@@ -302,8 +302,12 @@ func init() {
 		r := e.freshObj(st, "bufwriter")
 		e.setGhost(st, "wdst", SIface, r, e.term(args[0]))
 		e.setGhost(st, "npend", SInt, r, IntLit(0))
+		if _, ok := e.db.ghosts["werr"]; ok {
+			e.setGhost(st, "werr", SBool, r, TFalse)
+			e.setGhost(st, "pendstr", SStr, r, EmptyStr)
+		}
 		return r
-	}), "G_wdst", "G_npend")
+	}), "G_wdst", "G_npend", "G_werr", "G_pendstr")
 
 	// ---- encoding/binary: opaque here (no panic for fixed-size data; error or nil) ------
 	reg("encoding/binary.Write", "appends the fixed-size encoding of data to w or returns an error; does not panic for fixed-size values", ret(func(e *Exec, st *State, fr *Frame, site ssa.Instruction, args []Val) Val {
